@@ -202,4 +202,15 @@ PROPS = {
         test_clauses=["jlabel's parser and f64 parsing themselves (parameters of the model)", "bitwise equality of waveforms across forms"],
         assumptions=["jlabel::Label::from_str and str::parse::<f64> are outside the model; their verdicts travel with each case"],
     ),
+    "C03": dict(
+        rule="(a) schedules: k in {2,4,8,16} threads behind a start barrier with random spin stagger on one shared Arc<Engine> (bundled or generated voice, random "
+             "in-envelope condition), each thread synthesizing or stepping a generator frame by frame (yielding between frames) for one of three utterances; "
+             "compared bitwise with the sequential run; plus repeat, clone, two interleaved live generators with syntheses in between, and getters before/after. "
+             "(b) setter histories: two engines receive different random setter prefixes, then the same final values for all nine settings in different random orders; "
+             "getters and waveforms compared bitwise. class = (voice kind, thread count) / hist; non-trivial (a) = at least two calls overlapped in time (measured)",
+        theorem_clauses=["schedule irrelevance for call-local machines over a read-only engine value", "only the last call on each setting matters; different settings commute",
+                         "equal condition values give equal waveforms (synthesis is a function, returns no new engine)"],
+        test_clauses=["real thread interleavings on the real binary (bitwise)", "no hidden shared mutable state (source scan recorded; Send+Sync compile-time assertion)"],
+        assumptions=["Rust's type system for data-race freedom of safe code", "OS scheduler behaviour is sampled, not enumerated"],
+    ),
 }
